@@ -200,11 +200,11 @@ def _ops():
     ann = lambda n, t: E(S("annotate"), U(n), t)
     N("fn/annotated-positional-only", lambda t, b: E(S("fn"), List([ann("a", t), S("/")]), b), [V, B], F)
     N("fn/annotated-ordinary", lambda t, b: E(S("fn"), List([ann("a", t)]), b), [V, B], F)
-    N("fn/annotated-with-default", lambda t, d, b: E(S("fn"), List([List([ann("a", t), d])]), b), [V, V, B], F)
+    N("fn/annotated-with-default", lambda t, d, b: E(S("fn"), List([E(S("annotate"), List([U("a"), d]), t)]), b), [V, V, B], F)
     N("fn/annotated-keyword-only", lambda t, b: E(S("fn"), List([S("*"), ann("a", t)]), b), [V, B], F)
-    N("fn/annotated-star", lambda t, b: E(S("fn"), List([E(S("unpack-iterable"), ann("a", t))]), b), [V, B], F)
-    N("fn/annotated-double-star", lambda t, b: E(S("fn"), List([E(S("unpack-mapping"), ann("a", t))]), b), [V, B], F)
-    N("fn/annotated-positional-only-with-default", lambda t, d, b: E(S("fn"), List([List([ann("a", t), d]), S("/")]), b), [V, V, B], F)
+    N("fn/annotated-star", lambda t, b: E(S("fn"), List([E(S("annotate"), E(S("unpack-iterable"), U("a")), t)]), b), [V, B], F)
+    N("fn/annotated-double-star", lambda t, b: E(S("fn"), List([E(S("annotate"), E(S("unpack-mapping"), U("a")), t)]), b), [V, B], F)
+    N("fn/annotated-positional-only-with-default", lambda t, d, b: E(S("fn"), List([E(S("annotate"), List([U("a"), d]), t), S("/")]), b), [V, V, B], F)
     N("fn/async", lambda b: E(S("fn"), K("async"), List([]), b), [B], F)
     D = RM + "compile_function_def, compile_function_node"
     N("defn", lambda d, a, b: E(S("defn"), U("my-fn"), List([U("a"), List([U("b"), d])]), a, b), [B, B, B], D)
